@@ -16,14 +16,14 @@ Verdict(prop, clause) == PrintT(<<"VERDICT", i, prop, clause>>)
 Check(cond, prop, clause) == IF cond THEN TRUE ELSE Verdict(prop, clause)
 
 Str(e) ==
-    LET p == Parse(e.type, e.text) IN
+    \E p \in {Parse(e.type, e.text)} :   \* bound once (a LET in an action is re-evaluated at every reference)
     /\ Check(p.ok, "C16", "TextIsRfc4512")
     /\ (p.ok => Check(p.def = e.def, "C16", "TextDenotesDefinition"))
     /\ Check(e.backres = "ok", "C16", "ParsesBack")
     /\ (e.backres = "ok" => Check(e.back = e.def, "C16", "RoundTrip"))
 
 Parse_(e) ==
-    LET p == Parse(e.type, e.text) IN
+    \E p \in {Parse(e.type, e.text)} :   \* bound once (a LET in an action is re-evaluated at every reference)
     /\ Check(e.res \in {"ok", "ValueError"}, "C17", "Total")
     /\ (p.ok => /\ Check(e.res = "ok", "C17", "SentenceRejected")
                 /\ (e.res = "ok" => Check(e.def = p.def, "C17", "FieldsAsGrammarDenotes")))
